@@ -1034,8 +1034,10 @@ class _HitenBase(_SerializeBase, ABC):
                         if self._is_computed_property(attr_name, value):
                             # Convert value to serializable format if needed
                             state[attr_name] = self._make_serializable(value)
-                    except (AttributeError, TypeError, ValueError):
+                    except Exception:
                         # Skip attributes that can't be accessed or raise errors
+                        # (properties are evaluated here; one that is undefined for
+                        # this object must not make the object unsaveable)
                         continue
         
         # Remove other service-related attributes using the shared logic
